@@ -5,7 +5,7 @@ import warnings
 
 from .common import Oracle, Suite, errname, merge
 
-GEN_UNITS = ["Handlers", "PyUnicode"]
+GEN_UNITS = ["Handlers", "PyUnicode", "UsingSettings"]
 LEAN_TARGETS = ["PasslibVerif.Props.C09"]
 ASSUMPTIONS = [
     "float vary_rounds: the integer `int(default_rounds * vary_rounds)` is taken from the running interpreter (atom); log2-cost hashers with float vary are compared on the real code only",
